@@ -95,6 +95,15 @@ func vpH_C27_aggregate() {
 	if vpNondetBool("r2.hasY") {
 		r2.Files["y.go"] = vpCovVec("r2.y", n)
 	}
+	// the runs carry their per-test results too: two runs of the same test target
+	// (--num_runs, a flaky test retried) or of different ones
+	l1 := BuildLabel{PackageName: "p", Name: "t1"}
+	l2 := l1
+	if vpNondetBool("different-test-targets") {
+		l2 = BuildLabel{PackageName: "p", Name: "t2"}
+	}
+	r1.Tests[l1] = map[string][]LineCoverage{"x.go": r1.Files["x.go"], "y.go": r1.Files["y.go"]}
+	r2.Tests[l2] = map[string][]LineCoverage{"x.go": r2.Files["x.go"]}
 	fwd, rev := NewTestCoverage(), NewTestCoverage()
 	fwd.Aggregate(r1)
 	fwd.Aggregate(r2)
@@ -112,6 +121,11 @@ func vpH_C27_aggregate() {
 		for i := 0; i < len(fv) && i < len(rv) && i < len(av); i++ {
 			vpAssert("order-independent", fv[i] == rv[i])
 			vpAssert("idempotent", av[i] == fv[i])
+			// and it is the best state either run observed for the line
+			vpAssert("best-state-per-line", fv[i] == vpCovMax(vpCovAt(r1.Files[f], i), vpCovAt(r2.Files[f], i)))
 		}
 	}
+	_, has1 := fwd.Tests[l1]
+	_, has2 := fwd.Tests[l2]
+	vpAssert("per-test-results-kept", has1 && has2)
 }
